@@ -9,6 +9,11 @@ _Bool nondet_bool(void);
 #ifdef VERIF_ALLOC_NEVER_FAILS
 void *jwt_malloc(size_t size) { void *p = malloc(size); __CPROVER_assume(p != NULL); return p; }
 #else
+#ifdef VERIF_ALLOC_RECORD_FAIL
+extern int g_lib_fail;
+void *jwt_malloc(size_t size) { if (nondet_bool()) { g_lib_fail = 1; return NULL; } void *p = malloc(size); __CPROVER_assume(p != NULL); return p; }
+#else
 void *jwt_malloc(size_t size) { if (nondet_bool()) return NULL; void *p = malloc(size); __CPROVER_assume(p != NULL); return p; }
+#endif
 #endif
 void __jwt_freemem(void *ptr) { free(ptr); }
